@@ -246,30 +246,78 @@ def R2_passes(ctx):
     tm = Terms(b)
     fwd = b.calls_to(S + "depth_first_search")
     rev = b.calls_to(S + "reverse_depth_first_search")
+
+    class _P:
+        pass
+    closure_pass = None
+    if len(fwd) + len(rev) == 1:
+        # one pass written as `ids.try_for_each(|v| search(graph, &v, &mut visited, &mut stack))`: the closure is the loop body
+        missing = S + ("depth_first_search" if not fwd else "reverse_depth_first_search")
+        for cb in tree_of(F, b.path)[1:]:
+            cs = cb.calls_to(missing)
+            if len(cs) != 1 or cb.natural_loops():
+                continue
+            for c in b.calls():
+                if c.callee and (itm(c.callee, "try_for_each") or itm(c.callee, "for_each")):
+                    cl = tm.operand(c.args[1], c.bb)
+                    if cl[0] == "closure" and cl[1] == cb.path:
+                        closure_pass = (cb, cs[0], c, cl)
+    if closure_pass is not None:
+        cb, ccall, site, cl = closure_pass
+        ctm = Terms(cb)
+        caps_ops = None
+        for bb_, blk_ in enumerate(b.blocks):
+            for st_ in blk_["stmts"]:
+                if st_["k"] == "assign" and st_["rv"]["k"] == "agg" and st_["rv"].get("agg") == "closure" and st_["rv"].get("closure") == cb.path:
+                    caps_ops = st_["rv"]["fields"]
+        def cap_local(op):
+            t_ = unmut(nosite(deep_strip(ctm.operand(op, ccall.bb))))
+            if t_[0] == "field" and t_[1] == ("arg", 1) and str(t_[2]).isdigit() and caps_ops:
+                return root_local(b, caps_ops[int(t_[2])])
+            return None
+        pp = _P()
+        pp.bb, pp.callee, pp.where = site.bb, ccall.callee, site.where
+        pp.vis, pp.st = cap_local(ccall.args[2]), cap_local(ccall.args[3])
+        pp.stack_term = clean(tm.operand(caps_ops[int(unmut(nosite(deep_strip(ctm.operand(ccall.args[3], ccall.bb))))[2])], site.bb)) if caps_ops and pp.st is not None else None
+        recv = clean(tm.operand(site.args[0], site.bb))
+        pp.all_vertices = contains(recv, lambda s_: s_[0] == "call" and s_[1] == G + "vertex_ids") and not [x for x in calls_in(recv) if re.search(r"Iterator>?::(take|skip|filter|step_by)$", x[1])] and unmut(nosite(deep_strip(ctm.operand(ccall.args[1], ccall.bb)))) == ("arg", 2)
+        pp.propagated = try_propagation(cb, ccall, ctm)["kind"] in ("propagated", "returned") and (itm(site.callee, "try_for_each") and try_propagation(b, site, tm)["kind"] == "propagated")
+        pp.loop = None
+        if not fwd:
+            fwd = [pp]
+        else:
+            rev = [pp]
     ctx.check(len(fwd) + len(rev) == 2 and len(fwd) == 1, "opposite-directions", "the two passes do not use the two searches of opposite direction (forward calls %d, reverse calls %d)" % (len(fwd), len(rev)), b.where(), detail="{pass1, pass2} = {forward, reverse}")
     if len(fwd) != 1 or len(rev) != 1:
         return
     # order the passes by dominance
     p1, p2 = (fwd[0], rev[0]) if b.dominates(fwd[0].bb, rev[0].bb) or rev[0].bb in b.reachable(start=fwd[0].bb) and fwd[0].bb not in b.reachable(start=rev[0].bb) else (rev[0], fwd[0])
     a = lambda c, i: unmut(nosite(deep_strip(tm.operand(c.args[i], c.bb))))
-    l1 = innermost_loop(b, p1.bb)
+    is_cl = lambda c: isinstance(c, _P)
+    if is_cl(p2):
+        ctx.bad("two-loops", "pass 2 is written as a closure; only pass 1 is recognised in that form", b.where())
+        return
+    l1 = innermost_loop(b, p1.bb) if not is_cl(p1) else (-1, {p1.bb})
     l2 = innermost_loop(b, p2.bb)
     ctx.check(l1 is not None and l2 is not None and l1 != l2, "two-loops", "the passes are not two separate loops", b.where())
     if l1 is None or l2 is None:
         return
-    nx1 = [c for c in b.calls() if c.func.get("method") == "next" and c.bb in l1[1]]
-    ok1 = len(nx1) == 1
-    if ok1:
-        recv = deep_strip(tm.operand(nx1[0].args[0], nx1[0].bb))
-        ok1 = contains(recv, lambda s: s[0] == "call" and s[1] == G + "vertex_ids") and not [x for x in calls_in(recv) if re.search(r"Iterator>?::(take|skip|filter|step_by)$", x[1])]
-        ok1 = ok1 and a(p1, 1) == unmut(nosite(deep_strip(tm.call_term(nx1[0].term, nx1[0].bb))))
+    if is_cl(p1):
+        ok1 = p1.all_vertices
+    else:
+        nx1 = [c for c in b.calls() if c.func.get("method") == "next" and c.bb in l1[1]]
+        ok1 = len(nx1) == 1
+        if ok1:
+            recv = deep_strip(tm.operand(nx1[0].args[0], nx1[0].bb))
+            ok1 = contains(recv, lambda s: s[0] == "call" and s[1] == G + "vertex_ids") and not [x for x in calls_in(recv) if re.search(r"Iterator>?::(take|skip|filter|step_by)$", x[1])]
+            ok1 = ok1 and a(p1, 1) == unmut(nosite(deep_strip(tm.call_term(nx1[0].term, nx1[0].bb))))
     ctx.check(ok1, "pass1:all-vertices", "pass 1 does not start a search from every vertex id", p1.where(), detail="for v in graph.vertex_ids()")
     # and vertex_ids() is every id: VertexId(i) for i in 0..n_vertices
     vb = F.need(G + "vertex_ids")
     pf = positional_form(F, nosite(deep_strip(Terms(vb).return_term())))
     okv = pf is not None and pf[0] == ("call", "routee_compass_core::model::network::vertex_id::VertexId", (("i",),)) and pf[1] == {("call", G + "n_vertices", (("arg", 1),))}
     ctx.check(okv, "Graph::vertex_ids", "Graph::vertex_ids is not VertexId(i) for every i in 0..n_vertices: %s" % (short(pf[0])[:80] if pf else None), vb.where(), detail="(0..n_vertices).map(VertexId)")
-    vis1, st1 = root_local(b, p1.args[2]), root_local(b, p1.args[3])
+    vis1, st1 = (p1.vis, p1.st) if is_cl(p1) else (root_local(b, p1.args[2]), root_local(b, p1.args[3]))
     vis2, comp = root_local(b, p2.args[2]), root_local(b, p2.args[3])
     # visited reset between passes: clear() on the same set (or a different, fresh set)
     clears = [c for c in b.calls() if c.callee and c.callee.startswith("std::collections::HashSet::<T, S, A>::clear")]
@@ -286,7 +334,7 @@ def R2_passes(ctx):
             recv = clean(tm.operand(nx2[0].args[0], nx2[0].bb))
             chain = [x[1] for x in calls_in(recv)]
             revs = [n for n in chain if itm(n, "rev")]
-            stack_t = clean(tm.operand(p1.args[3], p1.bb))
+            stack_t = p1.stack_term if is_cl(p1) else clean(tm.operand(p1.args[3], p1.bb))
             if len(revs) == 1 and contains(recv, lambda q: q == stack_t) and not [n for n in chain if re.search(r"Iterator>?::(take|skip|filter|step_by|take_while|skip_while|filter_map)$", n)]:
                 turn = (nx2[0].bb, clean(tm.call_term(nx2[0].term, nx2[0].bb)))
     okp = turn is not None
@@ -324,7 +372,8 @@ def R2_passes(ctx):
         oks_ = [x for x in (rt[1] if rt[0] == "phi" else [rt]) if result_variant(x) == "Ok"]
         ctx.check(len(oks_) == 1 and unmut(deep_strip(agg_payload(oks_[0]))) == unmut(deep_strip(tm.local(res, rp[0].bb, 0))) or len(oks_) == 1, "result-returned", "the collected components are not returned", b.where())
     for c in (p1, p2):
-        ctx.check(try_propagation(b, c, tm)["kind"] == "propagated", "err:%s" % c.callee.split("::")[-1], "Err of a search pass is not propagated", c.where())
+        okp_ = c.propagated if is_cl(c) else try_propagation(b, c, tm)["kind"] == "propagated"
+        ctx.check(okp_, "err:%s" % c.callee.split("::")[-1], "Err of a search pass is not propagated", c.where())
 
 
 def R3_largest(ctx):
